@@ -70,6 +70,19 @@ def run(ctx: Ctx) -> dict:
         ops.append({"op": "bic.parts", "t": cps(t), "ai": False})
     for t in ("", "ABC", "GENODEM", "GENODEM1G", "GENODEM1GL", "GENODEM1GLSX", "genodem1gls", "GENO DE M1 GLS"):
         ops.append({"op": "bic.parts", "t": cps(t), "ai": True})
+    # texts that are NOT valid but leave remainder 1 (the alias spellings 99 / 00 / 01 of the prescribed
+    # digits 02 / 97 / 98): should one be accepted, its decomposition no longer re-assembles
+    aliases = {"02": "99", "97": "00", "98": "01"}
+    for row in (tbl_rows := [r for r in table if gen.row_classes(r) is not None])[:: 1 if not ctx.quick else 6]:
+        cc = gen.cc_of(row)
+        want = dict(aliases)
+        for _ in range(1500):
+            if not want:
+                break
+            b = gen.bban_for(row, rng)
+            d = gen.check_digits(cc, b)
+            if d in want:
+                ops.append({"op": "iban.parts", "t": cps(cc + want.pop(d) + b), "ai": False})
     # IBANs that carry the key of a really listed bank (where the registry knows more about the bank
     # code than the IBAN shows, the decomposition must still read the IBAN)
     import c12
